@@ -1,0 +1,53 @@
+//go:build verif
+
+package crypto
+
+// Machine-checked contracts for /verif (govc). Comment-only, compiled only
+// with -tags verif; changes no behaviour.
+//
+// Nonce layout: [4 bytes direction word][8 bytes big-endian counter].
+// dirSend(k) = 0 for the initiator, 0x80000000 for the responder;
+// dirRecv(k) is the opposite. A session's two ends have opposite isInitiator
+// (C03), so their send prefixes differ and each accepts only the other's.
+
+//@ guarded SessionKey.mu: sendNonce, recvNonce
+
+//@ ghost func dirword(initiatorSends bool) int = ite(initiatorSends, 0, 2147483648)
+
+//@ func (*SessionKey).buildSendNonce
+//@ prop C01 C02
+//@ check bounds lockset
+//@ requires held(s.mu)
+//@ ensures be32(result, 0) == dirword(s.isInitiator)
+//@ ensures be64(result, 4) == s.sendNonce
+//@ ensures forall i in 0..12: 0 <= result[i] && result[i] <= 255
+
+//@ func (*SessionKey).buildRecvNonce
+//@ prop C01
+//@ check bounds lockset
+//@ requires held(s.mu)
+//@ ensures be32(result, 0) == dirword(!s.isInitiator)
+//@ ensures be64(result, 4) == s.recvNonce
+
+//@ func (*SessionKey).Encrypt
+//@ prop C01 C02
+//@ check bounds lockset alloc
+//@ requires s.sendNonce < 18446744073709551615
+//@ ensures err == nil
+//@ ensures len(result) == len(plaintext) + 28
+//@ ensures be32(result, 0) == dirword(s.isInitiator)
+//@ ensures be64(result, 4) == old(s.sendNonce)
+//@ ensures s.sendNonce == old(s.sendNonce) + 1
+//@ ensures s.recvNonce == old(s.recvNonce)
+//@ ensures sealed(s.key, dirword(s.isInitiator), old(s.sendNonce), plaintext, result)
+
+//@ func (*SessionKey).Decrypt
+//@ prop C01
+//@ check bounds lockset
+//@ ensures err == nil ==> len(ciphertext) >= 28
+//@ ensures err == nil ==> be32(ciphertext, 0) == dirword(!s.isInitiator)
+//@ ensures err == nil ==> be64(ciphertext, 4) >= old(s.recvNonce)
+//@ ensures err == nil ==> s.recvNonce == be64(ciphertext, 4) + 1
+//@ ensures err == nil ==> opened(s.key, be32(ciphertext, 0), be64(ciphertext, 4), ciphertext[12:], result)
+//@ ensures err != nil ==> s.recvNonce == old(s.recvNonce)
+//@ ensures s.sendNonce == old(s.sendNonce)
